@@ -184,10 +184,9 @@ def main():
         ],
         "checks": checks,
         "not_applicable": na,
-        "notes": "Technique family: runtime monitoring. Exit 2 + INCONCLUSIVE line = a deciding monitor observed nothing (never on the unchanged tree). KNOWN_FINDINGS.txt lists recorded/fixed defects.",
+        "notes": "Technique family: runtime monitoring. Exit 2 + INCONCLUSIVE line = a deciding monitor observed nothing, a shard crashed / was killed / timed out, or a check declared its own run inconclusive (never on the unchanged tree). KNOWN_FINDINGS.txt lists recorded (known:) and repaired (fixed:) defects; not_applicable is empty: all 20 properties are claimed.",
     }
-    if not na:
-        del man["not_applicable"]
+    # (kept even when empty: every one of the 20 properties is claimed)
     with open(os.path.join(VERIF, "MANIFEST.json"), "w") as f:
         json.dump(man, f, indent=1)
     print(f"{len(checks)} checks, {len(na)} not claimed")
